@@ -817,3 +817,249 @@ def run_ext3(R: Run, H, bases, stats):
         far = rng.choice([2.0**30, -(2.0**34), 2.0**40]) * s_
         bb = BoundingBox(far + rng.randint(0, 7) / 4 * s_, far - 3.5 * s_, far + (9 + rng.randint(0, 3) / 2) * s_, far + 0.25 * s_, H.crs_of("1"))
         R.corr(f"c16 enclr {H.enc_gbox(g0)} {enc_region(H, bb)} []", real(lambda: H.enc_gbox(g0.enclosing(bb))), sig="enclr|far-away")
+
+
+# ---------------------------------------------------------------------------------------------------------------------
+# final increment: C16 o C14 (GridSpec tiles as operands), BoundingBox.map_bounds / aoi dispatch
+def run_ext4(R: Run, H, stats):
+    from odc.geo import resxy_, xy_
+    from odc.geo.geobox import geobox_union_conservative
+    from odc.geo.gridspec import GridSpec
+
+    rng = R.rng
+    real = H.real
+    for it in range(R.pick(120, 1500)):
+        ny, nx = rng.randint(1, 6), rng.randint(1, 6)
+        if it % 29 == 0:
+            ny = 0                                  # rejected by Bin1D: AssertionError
+        rx = rng.choice([1, -1]) * 2.0 ** rng.randint(-3, 4)
+        ry = rng.choice([1, -1, -1]) * 2.0 ** rng.randint(-3, 4)
+        ox, oy = rng.randint(-64, 64) / 4, rng.randint(-64, 64) / 4
+        fx, fy = rng.random() < 0.3, rng.random() < 0.4
+        tag = rng.choice(["1", "1", "4"])
+        tok = f"{ny}:{nx}:{frac_s(rx)}:{frac_s(ry)}:{frac_s(ox)}:{frac_s(oy)}:{bool_s(fx)}:{bool_s(fy)}"
+        sgn = ("+" if rx > 0 else "-") + ("+" if ry > 0 else "-") + ("|fx" if fx else "") + ("|fy" if fy else "")
+        big = (not R.quick) and it % 7 == 0
+        span = 2**20 if big else 4
+
+        def mk():
+            return GridSpec(H.crs_of(tag), (ny, nx), resxy_(rx, ry), origin=xy_(ox, oy), flipx=fx, flipy=fy)
+
+        ix, iy = rng.randint(-span, span), rng.randint(-span, span)
+        jx, jy = rng.choice([(ix + 1, iy), (ix, iy - 1), (ix, iy), (ix - 1, iy + 1), (rng.randint(-span, span), rng.randint(-span, span))])
+        m = rng.randint(0, 4)
+        case = {"op": "gridspec", "gs": tok, "crs": tag, "a": [ix, iy], "b": [jx, jy], "m": m}
+
+        def f_tile():
+            gs = mk()
+            t, t0 = gs.tile_geobox((ix, iy)), gs.tile_geobox((0, 0))
+            r = H.rect_of(t, t0)
+            return f"{H.enc_gbox(t)} " + ("off-grid" if r is None else ";".join(str(v) for v in r))
+
+        def f_ops():
+            gs = mk()
+            a, b = gs.tile_geobox((ix, iy)), gs.tile_geobox((jx, jy))
+            return f"{real(lambda: H.enc_gbox(a | b))()} {real(lambda: H.enc_gbox(a & b))()} {real(lambda: H.enc_roi(a.overlap_roi(b)))()}"
+
+        def f_row():
+            gs = mk()
+            return H.enc_gbox(geobox_union_conservative([gs.tile_geobox((ix + j, iy)) for j in range(m + 1)]))
+
+        o1 = R.corr(f"c16 gstile {tok} {tag} {ix} {iy}", real(f_tile), sig=f"gstile|{sgn}" + ("|big" if big else "") + ("|ny=0" if ny == 0 else ""))
+        o2 = R.corr(f"c16 gsops {tok} {tag} {ix} {iy} {jx} {jy}", real(f_ops),
+                    sig="gsops|" + ("same" if (ix, iy) == (jx, jy) else "neighbour" if abs(ix - jx) + abs(iy - jy) <= 2 else "far"))
+        o3 = R.corr(f"c16 gsrow {tok} {tag} {ix} {iy} {m}", real(f_row), sig=f"gsrow|m={m}")
+        if ny == 0:
+            continue
+        # independent oracles on the real objects (theorems tile_onGrid, tiles_ops_succeed, tiles_disjoint, row_union)
+        try:
+            gs = mk()
+            a, b = gs.tile_geobox((ix, iy)), gs.tile_geobox((jx, jy))
+            u, i = a | b, a & b
+            ok1, w1 = H.chk_union([a, b], u)
+            ok2, w2 = H.chk_inter([a, b], i)
+            ok3 = (ix, iy) == (jx, jy) or i.is_empty()
+            row = geobox_union_conservative([gs.tile_geobox((ix + j, iy)) for j in range(m + 1)])
+            ok4 = tuple(row.shape) == (ny, (m + 1) * nx) and H.chk_union([gs.tile_geobox((ix + j, iy)) for j in range(m + 1)], row)[0]
+            R.oracle(ok1 and ok2, "gridspec-tiles-set-ops", case, f"{w1} {w2}", sig="gridspec|ops")
+            R.oracle(ok3, "gridspec-tiles-overlap", case, f"different tiles share pixels: a & b = {i!r}", sig="gridspec|disjoint")
+            R.oracle(ok4, "gridspec-row-union", case, f"union of a row of {m + 1} tiles = {row!r}", sig="gridspec|row")
+        except Exception as e:  # pylint: disable=broad-except
+            R.oracle(False, "gridspec-tiles-op-raises", case, f"set operation between tiles of one GridSpec raised {e!r}", sig="gridspec|raises")
+    # realistic grids (oracle only): neighbouring tiles combine
+    for crs_, shape_, res_, org_ in (("EPSG:3577", (4000, 4000), (25.0, -25.0), (0.0, 0.0)), ("EPSG:32633", (3660, 3660), (30.0, -30.0), (399960.0, 0.0)),
+                                     ("EPSG:4326", (4000, 4000), (0.00025, -0.00025), (-180.0, -90.0)), ("EPSG:3857", (256, 256), (152.8740565703525, -152.8740565703525), (-20037508.342789244, -20037508.342789244))):
+        try:
+            gs = GridSpec(crs_, shape_, resxy_(*res_), origin=xy_(*org_))
+            for _ in range(R.pick(6, 60)):
+                ix, iy = rng.randint(-40, 40), rng.randint(-40, 40)
+                a, b, c = gs.tile_geobox((ix, iy)), gs.tile_geobox((ix + 1, iy)), gs.tile_geobox((ix, iy + 1))
+                case = {"op": "gridspec-float", "crs": crs_, "a": [ix, iy]}
+                out = guarded(lambda: str((tuple((a | b).shape), tuple((a | c).shape), (a & b).is_empty(), H.enc_roi(a.overlap_roi(b)))))
+                want = str(((shape_[0], 2 * shape_[1]), (2 * shape_[0], shape_[1]), True, f"0:{shape_[0]} {shape_[1]}:{shape_[1]}"))
+                R.oracle(out == want, "gridspec-tiles-set-ops", case, f"neighbouring tiles of a {crs_} grid: {out}, expected {want}",
+                         sig="gridspec|float|" + crs_)
+        except Exception as e:  # pylint: disable=broad-except
+            R.oracle(False, "gridspec-tiles-op-raises", {"op": "gridspec-float", "crs": crs_}, f"raised {e!r}")
+
+
+def run_ext5(R: Run, H, stats):
+    """BoundingBox.map_bounds / aoi dispatch (pyproj as a table) and GCPGeoBox.project (p2w / w2p of the mapping as tables)"""
+    from odc.geo import geom as GM
+    from odc.geo.geom import BoundingBox
+
+    rng = R.rng
+    real = H.real
+    ll = H.crs_of("2")
+    srcs = [("N", "eu", 0), ("2", "eu", 0), ("2", "eu", 1), ("1", "eu", 0), ("3", "eu", 0), ("4", "eu", 0), ("5", "eu", 0), ("6", "au", 0),
+            ("1", "au", 0)]
+    areas = {"eu": ((12.5, 15.0), (44.0, 52.0)), "au": ((115.0, 150.0), (-40.0, -12.0))}
+    for it in range(R.pick(90, 900)):
+        src, ar, alt = srcs[it % len(srcs)]
+        lon, lat = rng.uniform(*areas[ar][0]), rng.uniform(*areas[ar][1])
+        src_crs = None if src == "N" else (H.crs_alt(src, it) if alt else H.crs_of(src))
+        lonlat = src in ("N", "2")
+        c = (lon, lat) if lonlat else fresh_reproject(ll, src_crs, [(lon, lat)])[0]
+        ext = rng.uniform(0.0005, 0.2) if lonlat else rng.uniform(50, 20000)
+        xs_ = sorted(c[0] + rng.uniform(-1, 1) * ext for _ in range(2))
+        ys_ = sorted(c[1] + rng.uniform(-1, 1) * ext for _ in range(2))
+        bb = BoundingBox(xs_[0], ys_[0], xs_[1], ys_[1], src_crs)
+        ring = region_input_pts(bb)
+        try:
+            dstp = ring if lonlat else fresh_reproject(src_crs, ll, ring)
+        except Exception:  # pylint: disable=broad-except
+            continue
+        if not all(math.isfinite(x) for q in dstp for x in q):
+            continue
+        table = "[]" if lonlat else enc_table(ring, dstp)
+        sg = "nocrs" if src == "N" else "lonlat-respelled" if alt else "lonlat" if src == "2" else "projected|" + H.CRS_NAME[src]
+        out = R.corr(f"c16 bbmapb {H.enc_bb(bb)} 2 {table}",
+                     real(lambda: (lambda m_: f"{frac_s(m_[0][0])};{frac_s(m_[0][1])} {frac_s(m_[1][0])};{frac_s(m_[1][1])}")(bb.map_bounds())),
+                     sig="bbmapb|" + sg)
+        sw, ne = dstp[0], dstp[2]    # images of (left, bottom) and (right, top)
+        R.oracle(out == f"{frac_s(sw[1])};{frac_s(sw[0])} {frac_s(ne[1])};{frac_s(ne[0])}", "bbox-map-bounds-corners",
+                 {"bb": [float(x) for x in bb.bbox], "src": None if src_crs is None else str(src_crs)},
+                 f"{bb!r}.map_bounds() = {out}; SW / NE corners in lon-lat are {sw} / {ne}", sig="bbmapb|" + sg.split("|")[0])
+
+        def f_aoi():
+            a_ = bb.aoi
+            return ";".join(frac_s(v) for v in (a_.west_lon_degree, a_.south_lat_degree, a_.east_lon_degree, a_.north_lat_degree))
+
+        out = R.corr(f"c16 bbaoi {H.enc_bb(bb)} 2 {table}", real(f_aoi), sig="bbaoi|" + sg)
+        want = (min(q[0] for q in dstp), min(q[1] for q in dstp), max(q[0] for q in dstp), max(q[1] for q in dstp))
+        R.oracle(out == ";".join(frac_s(v) for v in want), "bbox-aoi-bounds",
+                 {"bb": [float(x) for x in bb.bbox], "src": None if src_crs is None else str(src_crs)},
+                 f"{bb!r}.aoi = {out}; lon-lat bounds of the corners are {want}", sig="bbaoi|" + sg.split("|")[0])
+
+    # GCPGeoBox.project through views whose pixel-side affine is a whole-pixel translation (exact)
+    try:
+        from odc.geo import xy_
+        from odc.geo.gcp import GCPGeoBox, GCPMapping
+
+        pix = [xy_(p) for p in [(0, 0), (10, 0), (10, 10), (0, 10), (5, 5), (2, 7)]]
+        wld = [xy_(p) for p in [(100, 200), (120, 201), (121, 180), (99, 181), (110, 190), (104, 186)]]
+        mp = GCPMapping(pix, wld, H.crs_of("1"))
+        gg = GCPGeoBox((10, 10), mp)
+        p2w, w2p = mp.p2w, mp.w2p
+    except Exception as e:  # pylint: disable=broad-except
+        R.notes.append(f"GCPGeoBox / GCPMapping not constructible through the public API ({e!r}); gcpproj stream skipped")
+        return
+    for it in range(R.pick(60, 600)):
+        y0, x0 = rng.randint(0, 5), rng.randint(0, 5)
+        y1, x1 = y0 + rng.randint(1, 4), x0 + rng.randint(1, 4)
+        v = gg[y0:y1, x0:x1] if it % 5 else gg
+        if it % 5 == 0:
+            y0, x0, y1, x1 = 0, 0, 10, 10
+        gtok = f"{y1 - y0}:{x1 - x0}:1;0;{x0};0;1;{y0}:1"     # the view: same mapping, pixel-side affine = translation(x0, y0)
+        n = rng.randint(1, 4)
+        to_world = it % 2 == 0
+        if to_world:
+            pts = [(rng.randint(0, 32) / 4, rng.randint(0, 32) / 4) for _ in range(n)]
+            geom = GM.multipoint(pts, None) if n > 1 else GM.point(pts[0][0], pts[0][1], None)
+            cin = coords_of(geom)
+            src_pts = [(q[0] + x0, q[1] + y0) for q in cin]
+            img = [tuple(float(t) for t in p2w(q[0], q[1])) for q in src_pts]
+            ptab, qtab, rtag = enc_table(src_pts, img), "[]", "N"
+        else:
+            pts = [(rng.uniform(100, 120), rng.uniform(181, 200)) for _ in range(n)]
+            geom = GM.multipoint(pts, H.crs_of("1")) if n > 1 else GM.point(pts[0][0], pts[0][1], H.crs_of("1"))
+            cin = coords_of(geom)
+            img = [tuple(float(t) for t in w2p(q[0], q[1])) for q in cin]
+            ptab, qtab, rtag = "[]", enc_table(cin, img), "1"
+            # `~affine * (x, y)` subtracts the view offset in floats: tie only where that subtraction is exact
+            if not all(Fr(q[0] - x0) == Fr(q[0]) - x0 and Fr(q[1] - y0) == Fr(q[1]) - y0 for q in img):
+                stats["inexact-skipped"] += 1
+                continue
+        if not all(math.isfinite(t) for q in img for t in q):
+            continue
+        R.corr(f"c16 gcpproj {gtok} {rtag} {enc_pts(cin)} {ptab} {qtab} []",
+               real(lambda: (lambda o: f"{H.tag_of(o.crs)} {enc_pts(coords_of(o))}")(v.project(geom))),
+               sig="gcpproj|" + ("to-world" if to_world else "to-pix") + ("|view" if it % 5 else "|whole"))
+
+
+def enclosing_excess_oracle(H, g, verts, res, sl):
+    """theorem enclosing_world_excess on the real output (any invertible grid): with T the world bounding box of the
+    region's tight pixel box, res.boundingbox contains T and exceeds it by at most (|a|+|b|, |d|+|e|) per side"""
+    A = H.fa(g.affine)
+    if A[0] * A[4] - A[1] * A[3] == 0:
+        return True, ""
+    inv = H.fa_inv(A)
+    px = [H.fa_apply(inv, (Fr(x), Fr(y))) for x, y in verts]
+    pl, pr = min(p[0] for p in px), max(p[0] for p in px)
+    pb, pt = min(p[1] for p in px), max(p[1] for p in px)
+    cs = [H.fa_apply(A, q) for q in ((pl, pb), (pl, pt), (pr, pb), (pr, pt))]
+    T = (min(c[0] for c in cs), min(c[1] for c in cs), max(c[0] for c in cs), max(c[1] for c in cs))
+    W = bb_fr(res.boundingbox)
+    wx, wy = abs(A[0]) + abs(A[1]), abs(A[3]) + abs(A[4])
+    s_ = sl * max(wx, wy)
+    if not bb_within(T, W, s_):
+        return False, f"result bounding box {tuple(map(float, W))} does not contain the region's pixel-box footprint {tuple(map(float, T))}"
+    if not (T[0] - wx - s_ <= W[0] and T[1] - wy - s_ <= W[1] and W[2] <= T[2] + wx + s_ and W[3] <= T[3] + wy + s_):
+        return False, (f"result bounding box {tuple(map(float, W))} exceeds {tuple(map(float, T))} by more than one pixel's "
+                       f"world bounding box ({float(wx)}, {float(wy)})")
+    return True, ""
+
+
+def run_ext6(R: Run, H, bases, stats):
+    """reduce(|) / reduce(&) against the n-ary functions for ARBITRARY operand lists: members on the grid, members off it
+    by less than the tolerance (accepted), members beyond it or in another CRS (rejected) - theorems
+    reduce_or_eq_union_any / reduce_and_eq_inter_any / bbpd_ref_shift"""
+    import functools
+    import operator
+
+    from odc.geo.geobox import geobox_intersection_conservative, geobox_union_conservative
+
+    rng = R.rng
+    real = H.real
+    simple = [("north-up", (1, 0, 0, 0, -1, 0)), ("mirror-x", (-2, 0, 0, 0, -2, 0)), ("south-up", (2, 0, 0, 0, 2, 0)),
+              ("rot90", (0, -1, 0, 1, 0, 0)), ("rot45", (1, -1, 0, 1, 1, 0)), ("shear", (1, 1, 0, 0, 1, 0))]
+    offs = [Fr(0), Fr(0), Fr(0), Fr(1, 2**30), Fr(-1, 2**30), Fr(1, 2**28), Fr(1, 2**20), Fr(1, 2), Fr(-1, 4)]   # < 1e-8 accepted
+    for it in range(R.pick(150, 2000)):
+        nm, B = rng.choice(simple)
+        B = tuple(Fr(v) for v in B)
+        k = rng.choice([2, 3, 3, 4])
+        big = (not R.quick) and it % 9 == 0
+        span = 2**rng.randint(10, 30) if big else 6
+        gs, kinds = [], []
+        for j in range(k):
+            e1, e2 = rng.choice(offs), rng.choice(offs[:4])
+            if it % 3 == 0:
+                e1 = e2 = Fr(0)
+            tag = "2" if (it % 17 == 0 and j == k - 1) else "1"
+            g_ = H.mk_gbox(H.fa_mul(B, H.fa_T(rng.randint(-span, span) + e1, rng.randint(-span, span) + e2)),
+                           rng.randint(0 if j else 1, 5), rng.randint(0 if j else 1, 5), tag)
+            gs.append(g_)
+            sub = max(abs(e1), abs(e2))
+            kinds.append("crs" if tag == "2" else "on" if sub == 0 else "near" if sub < Fr(1e-8) else "off")
+        if any(g_ is None for g_ in gs) or not all(H.exact_pair(x, y) for x in gs for y in gs):
+            stats["inexact-skipped"] += 1
+            continue
+        egs = list_s(gs, H.enc_gbox)
+        sg = "+".join(sorted(set(kinds))) + ("|big" if big else "")
+        case = {"gs": [H.gb_dict(g_) for g_ in gs], "op": "reduce"}
+        for op, fold, nary in (("or", operator.or_, geobox_union_conservative), ("and", operator.and_, geobox_intersection_conservative)):
+            o1 = R.corr(f"c16 reduce {op} {egs}", real(lambda: H.enc_gbox(functools.reduce(fold, gs))), sig=f"reduce|{op}|{nm}|{sg}")
+            o2 = guarded(real(lambda: H.enc_gbox(nary(list(gs)))))
+            same = (o1 == o2) or (o1.startswith("ERR") and o2.startswith("ERR"))
+            R.oracle(same, "nary-differs-from-binary-fold", {**case, "which": op},
+                     f"reduce({op}) gave {o1[:90]} but the n-ary function gave {o2[:90]}", sig=f"reduce-vs-nary|{op}|{sg}")
